@@ -11,7 +11,7 @@
 From Coq Require Import List ZArith Bool.
 From Coq.Init Require Import Byte.
 From Sif Require Import Bytes Store Format Image Machine Inv InvSet InvAdd InvCreate InvLoad
-     LoadFacts Reach Persist.
+     LoadFacts Reach Persist Meta MetaFacts MetaStored.
 Import ListNotations.
 Local Open Scope Z_scope.
 
@@ -112,9 +112,99 @@ Example C01_example_meets_hypotheses :
   end.
 Proof. vm_compute. repeat split. Qed.
 
+(* The typed accessors (descriptor.go: Name, GroupID, PartitionMetadata,
+   SignatureMetadata, CryptoMessageMetadata, SBOMMetadata, OCIBlobDigest;
+   model: Meta.v) return what the options of descriptor_input.go were given,
+   for every object `stored` as above - at creation or by a later add, on the
+   handle or after loading anew (C01_same_after_loading_anew).  `opt_*` are the
+   options themselves: they refuse the wrong data type / an unknown
+   architecture, else yield the metadata the descriptor input carries. *)
+Theorem C01_name_read_back :
+  forall sha256 di t old d st, stored sha256 di t old d st ->
+  (length (di_name di) <= 128)%nat -> last (di_name di) x01 <> x00 ->
+  name_of d = di_name di.
+Proof. exact stored_name. Qed.
+
+Theorem C01_group_read_back :
+  forall sha256 di t old d st, stored sha256 di t old d st ->
+  0 <= di_group di < 2 ^ 28 -> group_of d = di_group di.
+Proof. exact stored_group. Qed.
+
+Theorem C01_partition_metadata_read_back :
+  forall sha256 di t old d st fs pt arch_name, stored sha256 di t old d st ->
+  opt_partition (di_type di) fs pt arch_name = Some (di_md di) -> in_i32 fs -> in_i32 pt ->
+  partition_metadata d = inl (fs, pt, arch_name).
+Proof. exact stored_partition. Qed.
+
+Theorem C01_signature_metadata_read_back :
+  forall sha256 di t old d st hash fp, stored sha256 di t old d st ->
+  opt_signature (di_type di) hash fp = Some (di_md di) ->
+  supported_hash hash -> length fp = 20%nat -> all_zero fp = false ->
+  signature_metadata d = inl (hash, Some fp).
+Proof. exact stored_signature. Qed.
+
+Theorem C01_crypto_metadata_read_back :
+  forall sha256 di t old d st ft mt, stored sha256 di t old d st ->
+  opt_crypto (di_type di) ft mt = Some (di_md di) -> in_i32 ft -> in_i32 mt ->
+  crypto_metadata d = inl (ft, mt).
+Proof. exact stored_crypto. Qed.
+
+Theorem C01_sbom_metadata_read_back :
+  forall sha256 di t old d st f, stored sha256 di t old d st ->
+  opt_sbom (di_type di) f = Some (di_md di) -> in_i32 f ->
+  sbom_metadata d = inl f.
+Proof. exact stored_sbom. Qed.
+
+Theorem C01_oci_digest_read_back :
+  forall sha256, (forall c, length (sha256 c) = 32%nat) ->
+  forall di t old d st, stored sha256 di t old d st -> di_md di = MdOCI ->
+  di_type di = DataOCIBlob \/ di_type di = DataOCIRootIndex ->
+  oci_digest d = inl (sha256_prefix ++ hex_of (sha256 (di_content di))).
+Proof. exact stored_oci_digest. Qed.
+
+(* A crypto.Hash outside SHA-256/384/512 and BLAKE2s/b-256 is written as hash
+   type 0, and SignatureMetadata refuses hash type 0: such a signature object
+   is stored, but its metadata cannot be read back (the property's quantifier
+   lists the metadata variants the format can represent; this one it cannot). *)
+Theorem C01_unsupported_hash_not_representable :
+  forall h, ~ supported_hash h -> sif_hash_type h = 0 /\ get_hash_type 0 = None.
+Proof. exact hash_unsupported. Qed.
+
+(* non-vacuity: the third object of co2 is a signature object made with
+   OptSignatureMetadata(BLAKE2b_256, fp); the accessors answer as given *)
+Definition fp0 : list byte := [x01;x02;x03;x04;x05;x06;x07;x08;x09;x0a;x0b;x0c;x0d;x0e;x0f;x10;x11;x12;x13;x14].
+Definition co2 : copts :=
+  mkCO [] (zeros 16) 4 1504657553
+       [ mkDI DataPartition [x01] None 1 LNone 0 [x70] (MdPart 1 3 (get_sif_arch [x73; x33; x39; x30; x78])) None;
+         mkDI DataCryptoMessage [x02] None 1 LNone 0 [] (MdRaw (enc_crypto 2 512)) None;
+         mkDI DataSignature [x03] None 0 (LObject 1) 0 [x73; x69; x67] (MdRaw (enc_signature (sif_hash_type 17) fp0)) None;
+         mkDI DataSBOM [x04] None 2 LNone 0 [] (MdRaw (enc_sbom 5)) None ].
+Example C01_typed_metadata_example :
+  match create sha0 BBuf co2 with
+  | (Some s, Ok, _) =>
+      map (fun d => (name_of d, group_of d)) (m_rds (s_mem s)) =
+        [([x70], 1); ([], 1); ([x73; x69; x67], 0); ([], 2)] /\
+      map partition_metadata (m_rds (s_mem s)) =
+        [inl (1, 3, [x73; x33; x39; x30; x78]); inr MWrongType; inr MWrongType; inr MWrongType] /\
+      map crypto_metadata (m_rds (s_mem s)) = [inr MWrongType; inl (2, 512); inr MWrongType; inr MWrongType] /\
+      map signature_metadata (m_rds (s_mem s)) =
+        [inr MWrongType; inr MWrongType; inl (17, Some fp0); inr MWrongType] /\
+      map sbom_metadata (m_rds (s_mem s)) = [inr MWrongType; inr MWrongType; inr MWrongType; inl 5]
+  | _ => False
+  end.
+Proof. vm_compute. repeat split. Qed.
+
 Print Assumptions C01_created_objects_read_back.
 Print Assumptions C01_added_object_read_back.
 Print Assumptions C01_objects_persist.
 Print Assumptions C01_get_data_is_region.
 Print Assumptions C01_same_after_loading_anew.
 Print Assumptions C01_oci_digest_of_stored_bytes.
+Print Assumptions C01_name_read_back.
+Print Assumptions C01_group_read_back.
+Print Assumptions C01_partition_metadata_read_back.
+Print Assumptions C01_signature_metadata_read_back.
+Print Assumptions C01_crypto_metadata_read_back.
+Print Assumptions C01_sbom_metadata_read_back.
+Print Assumptions C01_oci_digest_read_back.
+Print Assumptions C01_unsupported_hash_not_representable.
